@@ -183,6 +183,8 @@ def term_key(e):
         return "const:%s:%s" % (s[1], ilshape.wnorm(e[1], {}))
     if s[0] == "const" and len(s) > 2:
         return "const#%s" % s[2]
+    if s[0] == "op" and s[1].startswith("join#"):
+        return s[1]
     if s[0] == "op":
         ks = [term_key(a) for a in s[2]]
         if all(k is not None for k in ks):
